@@ -108,7 +108,7 @@ func check(c Case) evid.Outcome {
 }
 
 func gen(t *rapid.T) Case {
-	return Case{*hist.Gen(t, hist.Options{CSP: true, MaxOps: 14, BadMembers: true, RuntimeBad: true, ReadOnlyOps: true, NoRedefine: true, ParseAfter: true, Unbalanced: rapid.IntRange(0, 2).Draw(t, "unbalanced") == 0, Clones: rapid.IntRange(0, 2).Draw(t, "clones") == 0})}
+	return Case{*hist.Gen(t, hist.Options{CSP: true, MaxOps: 14, MixedHelpers: rapid.Bool().Draw(t, "mixedh"), BadMembers: true, RuntimeBad: true, ReadOnlyOps: true, NoRedefine: true, ParseAfter: true, Unbalanced: rapid.IntRange(0, 2).Draw(t, "unbalanced") == 0, Clones: rapid.IntRange(0, 2).Draw(t, "clones") == 0})}
 }
 
 // TestPropCategories: every failure category, every body of the pool, alone in a set, through all four entry points,
